@@ -37,7 +37,7 @@ func (g *hPW) create(set uint8, withTarget bool, t Entity) int {
 	p, s, v := g.newRef("ref")
 	vals := hSymVals("pv")
 	comps := x.comps(set&^(1<<uP), &vals)
-	comps = append(comps, Component{ID: x.id[uP], Comp: &hP{P: p}})
+	comps = append(comps, Component{ID: x.id[uP], Comp: hMkP(p)})
 	var e Entity
 	if withTarget {
 		e = NewBuilderWith(&x.w, comps...).WithRelation(x.id[uR1]).New(t)
@@ -76,8 +76,8 @@ func (g *hPW) checkRefs() {
 		}
 		if x.alive[i] && x.set[i]&(1<<uP) != 0 && x.p[i] != nil {
 			hp := (*hP)(x.w.Get(x.h[i], x.id[uP]))
-			vAssert(hp.P == x.p[i], "a pointer-carrying component keeps the pointer last written to it")
-			vAssert(*hp.P == g.val[i], "what a live component references is intact")
+			vAssert(hp.P[1] == x.p[i], "a pointer-carrying component keeps the pointer last written to it")
+			vAssert(*hp.P[1] == g.val[i], "what a live component references is intact")
 		}
 	}
 }
@@ -98,19 +98,19 @@ func (g *hPW) step(op int) {
 		i := g.pickP("ent")
 		vAssume(x.set[i]&P != 0)
 		p, s, v := g.newRef("ref")
-		(*hP)(x.w.Get(x.h[i], x.id[uP])).P = p
+		(*hP)(x.w.Get(x.h[i], x.id[uP])).P[1] = p
 		x.p[i], g.slot[i], g.val[i] = p, s, v
 	case 2: // World.Set
 		i := g.pickP("ent")
 		vAssume(x.set[i]&P != 0)
 		p, s, v := g.newRef("ref")
-		x.w.Set(x.h[i], x.id[uP], &hP{P: p})
+		x.w.Set(x.h[i], x.id[uP], hMkP(p))
 		x.p[i], g.slot[i], g.val[i] = p, s, v
 	case 3: // Assign P to an entity without it
 		i := x.pickAliveIdx("ent")
 		vAssume(x.set[i]&P == 0)
 		p, s, v := g.newRef("ref")
-		x.w.Assign(x.h[i], Component{ID: x.id[uP], Comp: &hP{P: p}})
+		x.w.Assign(x.h[i], Component{ID: x.id[uP], Comp: hMkP(p)})
 		x.mExchange(i, P, 0, false, Entity{})
 		x.p[i], g.slot[i], g.val[i] = p, s, v
 	case 4: // move the entity: add / remove another component
@@ -252,7 +252,7 @@ func (g *hPW) checkRefsValuesOnly() {
 	for i := 0; i < x.n; i++ {
 		if x.alive[i] && x.set[i]&(1<<uP) != 0 && g.slot[i] >= 0 {
 			hp := (*hP)(x.w.Get(x.h[i], x.id[uP]))
-			vAssert(hp.P != nil && *hp.P == g.val[i], "what a live component references is intact after garbage collection")
+			vAssert(hp.P[1] != nil && *hp.P[1] == g.val[i], "what a live component references is intact after garbage collection")
 		}
 		if x.alive[i] && x.set[i]&(1<<uS) != 0 && g.slot[i] >= 0 {
 			vAssert((*hS)(x.w.Get(x.h[i], x.id[uS])).S == vHeapStringText(g.slot[i]), "a string held by a live component is intact after garbage collection")
